@@ -6,6 +6,7 @@
  *   N <path> <rs> <rns> <ms> <mns> <errno> <failclk>   open, now() under the virtual clock, print, close
  *   P <slot> <path>                       clockbound_open into a slot that stays open
  *   Q <slot> <rs> <rns> <ms> <mns>        clockbound_now on an open slot
+ *   L <slot> <n> <rs> <rns> <ms> <mns>    clockbound_now n times on an open slot, print the last outcome
  *   R <slot>                              clockbound_close the slot
  *   M                                     print the number of open file descriptors and of memory mappings
  *   F <call> <nth> <errno>                the nth (0-based) open (0) / read (1) / mmap (2) made from now on fails once
@@ -126,6 +127,22 @@ int main(void) {
                         if (sscanf(line + 2, "%d %d %d", &call, &nth, &e) != 3) { printf("bad\n"); fflush(stdout); continue; }
                         f_call = call; f_nth = nth; f_errno = e; f_seen = 0;
                         printf("armed\n");
+                        fflush(stdout);
+                        continue;
+                }
+                if (line[0] == 'L') {
+                        int slot; long long cnt, rs, rns, ms, mns;
+                        if (sscanf(line + 2, "%d %lld %lld %lld %lld %lld", &slot, &cnt, &rs, &rns, &ms, &mns) != 6 || slot < 0 || slot >= 16 || !slots[slot]) { printf("bad\n"); fflush(stdout); continue; }
+                        clockbound_now_result res;
+                        memset(&res, 0x5a, sizeof res);
+                        v_real.tv_sec = rs; v_real.tv_nsec = rns; v_mono.tv_sec = ms; v_mono.tv_nsec = mns;
+                        v_fail_errno = 0; v_fail_clk = -1;
+                        v_on = 1;
+                        const clockbound_err *e = NULL;
+                        for (long long i = 0; i < cnt; i++) e = clockbound_now(slots[slot], &res);
+                        v_on = 0;
+                        if (e) print_err("now", e);
+                        else printf("now ok %lld %lld %lld %lld %d\n", (long long)res.earliest.tv_sec, (long long)res.earliest.tv_nsec, (long long)res.latest.tv_sec, (long long)res.latest.tv_nsec, (int)res.clock_status);
                         fflush(stdout);
                         continue;
                 }
